@@ -7,8 +7,19 @@ into the line-protocol driver.
 
 Objects are ids (`Nat`).  A *side* is either the inlet side (port lists are the
 `ins` of units, `loc` is `stream._sink`) or the outlet side (`outs`, `_source`).
-Streams and placeholders ("missing streams") share one id space; `real s` tells
-which is which.  Python `is`-identity is equality of ids.
+Streams and placeholders (`AbstractMissingStream` objects) share one id space;
+`World.real s` tells which is which.  Python `is`-identity is equality of ids.
+
+Placeholders are first-class objects: every `_create_missing_stream()` /
+`_as_stream(None)` of the code allocates a fresh id whose pointer on the creating
+side names the unit of the port list (`MissingStream(None, sink)` /
+`MissingStream(source, None)`), the pointer on the other side is `None`; from then
+on a placeholder is docked, undocked, moved between units and disconnected by
+exactly the same code paths as a stream (`_dock`, `_undock`, `_redock`, `remove`,
+`disconnect_source/sink` are shared or duck-typed in the code).  The docking
+bookkeeping never looks at whether an object is a placeholder; only
+`AbstractUnit.disconnect` (`[i for i in ins if i]`), the `isinstance(…, AbstractStream)`
+tests of `AbstractUnit.disconnect/insert` and the constructors do.
 -/
 namespace ThermoVerif.Network
 
@@ -33,14 +44,12 @@ structure Side where
   /-- `_size` of the port list. -/
   size : Nat → Nat
 
-/-- A side together with the allocation counter for fresh placeholder ids. -/
+/-- A side together with the allocation counter for fresh object ids. -/
 structure SW where
   sd : Side
   next : Nat
-  /-- which ids are real streams (the others are placeholders) -/
-  real : Nat → Bool
   /-- sticky monitor: every primitive list operation so far was used within the
-  precondition the property states for it -/
+  precondition the property states for it (for streams and placeholders alike) -/
   pre : Bool
 
 def Side.setLoc (sd : Side) (s : Nat) (v : Option Nat) : Side :=
@@ -102,8 +111,8 @@ def SW.undockAll (w : SW) : List Nat → SW
 
 /-- `_set_stream(i, stream)` (`seq[i] = stream`, non-negative `i`). -/
 def SW.setStream (w : SW) (u i s : Nat) : Except Err SW :=
-  -- precondition: a (real) stream assigned to a port is not already in the same port list
-  let w := { w with pre := w.pre && (!w.real s || !(w.sd.lst u).contains s) }
+  -- precondition: a stream (or placeholder) assigned to a port is not already in the same port list
+  let w := { w with pre := w.pre && !(w.sd.lst u).contains s }
   let l := w.sd.lst u
   if h : i < l.length then do
     let w1 := w.undock l[i]
@@ -130,11 +139,10 @@ def SW.setStreams (w : SW) (u a b : Nat) (items : List (Option Nat)) : Except Er
   let (w0, ss) := w.asStreams u items
   let l := w0.sd.lst u
   let b' := max a b
-  -- precondition: the supplied real streams are distinct, none is in the part of the list
-  -- that is kept, and a fixed-size list is not overfilled
-  let rs := ss.filter w0.real
+  -- precondition: the supplied objects (streams and placeholders) are distinct, none is in the
+  -- part of the list that is kept, and a fixed-size list is not overfilled
   let kept := l.take a ++ l.drop b'
-  let w0 := { w0 with pre := w0.pre && rs.Nodup && rs.all (fun s => !kept.contains s)
+  let w0 := { w0 with pre := w0.pre && ss.Nodup && ss.all (fun s => !kept.contains s)
                         && (!w0.sd.fixed u || (kept.length + ss.length ≤ w0.sd.size u)) }
   let w1 := w0.undockAll ((l.drop a).take (b' - a))
   let l' := l.take a ++ ss ++ l.drop b'
@@ -149,8 +157,8 @@ def SW.setStreams (w : SW) (u a b : Nat) (items : List (Option Nat)) : Except Er
 def SW.insertAt (w : SW) (u i s : Nat) : Except Err SW :=
   if w.sd.fixed u then .error .fixedSize
   else
-    -- precondition: an inserted (real) stream is not docked on this side of any unit
-    let w := { w with pre := w.pre && (!w.real s || (w.sd.loc s).isNone) }
+    -- precondition: an inserted stream (or placeholder) is not docked on this side of any unit
+    let w := { w with pre := w.pre && (w.sd.loc s).isNone }
     let w1 := (w.undock s).dock u s
     let l := w1.sd.lst u
     .ok { w1 with sd := w1.sd.setLst u (l.take i ++ s :: l.drop i) }
@@ -159,14 +167,14 @@ def SW.insertAt (w : SW) (u i s : Nat) : Except Err SW :=
 def SW.append (w : SW) (u s : Nat) : Except Err SW :=
   if w.sd.fixed u then .error .fixedSize
   else
-    let w := { w with pre := w.pre && (!w.real s || (w.sd.loc s).isNone) }
+    let w := { w with pre := w.pre && (w.sd.loc s).isNone }
     let w1 := (w.undock s).dock u s
     .ok { w1 with sd := w1.sd.setLst u (w1.sd.lst u ++ [s]) }
 
 def SW.extendGo (w : SW) (u : Nat) : List Nat → SW
   | [] => w
   | s :: ss =>
-    let w := { w with pre := w.pre && (!w.real s || (w.sd.loc s).isNone) }
+    let w := { w with pre := w.pre && (w.sd.loc s).isNone }
     let w1 := (w.undock s).dock u s
     SW.extendGo { w1 with sd := w1.sd.setLst u (w1.sd.lst u ++ [s]) } u ss
 
@@ -185,9 +193,7 @@ def SW.remove (w : SW) (u s : Nat) : Except Err SW :=
   let (w1, m) := w.newMissing u
   w1.replace u s m
 
-/-- `seq.pop(index)`; returns the popped stream.  Models the *intended*
-behaviour (the popped stream is undocked in both the fixed- and the
-variable-size case). -/
+/-- `seq.pop(index)`; returns the popped object (stream or placeholder), undocked. -/
 def SW.pop (w : SW) (u i : Nat) : Except Err (SW × Nat) :=
   let l := w.sd.lst u
   if h : i < l.length then
@@ -201,7 +207,7 @@ def SW.pop (w : SW) (u i : Nat) : Except Err (SW × Nat) :=
       .ok ({ w1 with sd := w1.sd.setLst u (l.eraseIdx i) }, s)
   else .error .indexError
 
-/-- `seq.clear()`; intended behaviour (every stream leaving the list is undocked). -/
+/-- `seq.clear()`: every object leaving the list is undocked. -/
 def SW.clear (w : SW) (u : Nat) : SW :=
   let w1 := w.undockAll (w.sd.lst u)
   if w1.sd.fixed u then
@@ -243,8 +249,8 @@ inductive Which where | i | o
   deriving DecidableEq, Repr
 
 def World.get (w : World) : Which → SW
-  | .i => ⟨w.ins, w.nS, w.real, w.pre⟩
-  | .o => ⟨w.outs, w.nS, w.real, w.pre⟩
+  | .i => ⟨w.ins, w.nS, w.pre⟩
+  | .o => ⟨w.outs, w.nS, w.pre⟩
 
 def World.put (w : World) : Which → SW → World
   | .i, r => { w with ins := r.sd, nS := r.next, pre := r.pre }
@@ -321,9 +327,10 @@ def World.initSeq (w : World) (k : Which) (u n : Nat) (fx : Bool) (arg : PortsAr
     let (sw1, ms) := sw.newMissings u n
     .ok (w.put k { sw1 with sd := sw1.sd.setLst u ms })
   | .given l =>
-    -- precondition: the stream objects given are distinct
+    -- precondition: the objects given are distinct streams (a placeholder object inside a
+    -- constructor list is outside the documented use: the code would take it for an ID)
     let given := l.filterMap fun | .strm s => some s | _ => none
-    let w := { w with pre := w.pre && (given.filter w.real).Nodup }
+    let w := { w with pre := w.pre && given.Nodup && given.all w.real }
     if fx then
       if n < l.length then .error .fixedSize
       else do
@@ -332,7 +339,10 @@ def World.initSeq (w : World) (k : Which) (u n : Nat) (fx : Bool) (arg : PortsAr
         let (sw1, ms) := sw.newMissings u n
         let w := w.put k { sw1 with sd := sw1.sd.setLst u ms }
         let (w1, ss) ← w.loadItems k u true [] l
-        let sw := w1.get k
+        -- the first `N` placeholders are overwritten: from here on they are unreachable (no port
+        -- list holds them and nobody was handed one), so their stale pointer is unobservable; the
+        -- model clears it, which lets the invariant speak about every allocated id
+        let sw := (w1.get k).undockAll (((w1.get k).sd.lst u).take ss.length)
         .ok (w1.put k { sw with sd := sw.sd.setLst u (ss ++ (sw.sd.lst u).drop ss.length) })
     else do
       let (w1, ss) ← w.loadItems k u false [] l
@@ -361,19 +371,24 @@ inductive PortRef where
   | idx (i : Nat)
   | strm (s : Nat)
 
-def SW.resolve (w : SW) (u : Nat) : PortRef → Except Err Nat
+/-- `ins.index(i) if isinstance(i, AbstractStream) else i`; a placeholder object is not an
+`AbstractStream`, so it is used as the index itself and `__setitem__` rejects it (`IndexError`). -/
+def SW.resolve (real : Nat → Bool) (w : SW) (u : Nat) : PortRef → Except Err Nat
   | .idx i => .ok i
-  | .strm s => match (w.sd.lst u).idxOf? s with
-    | some i => .ok i
-    | none => .error .valueError
+  | .strm s =>
+    if real s then
+      match (w.sd.lst u).idxOf? s with
+      | some i => .ok i
+      | none => .error .valueError
+    else .error .indexError
 
-def SW.setNones (w : SW) (u : Nat) : List PortRef → Except Err SW
+def SW.setNones (real : Nat → Bool) (w : SW) (u : Nat) : List PortRef → Except Err SW
   | [] => .ok w
   | r :: rs => do
-    let i ← w.resolve u r
+    let i ← w.resolve real u r
     let (w1, m) := w.newMissing u
     let w2 ← w1.setStream u i m
-    w2.setNones u rs
+    SW.setNones real w2 u rs
 
 /-- `outs[ins.index(o) if isinstance(o, AbstractStream) else o] = None` for each given outlet:
 the code looks a stream up in the *inlet* list (mirrored as it is; the docking
@@ -381,7 +396,7 @@ invariant is not affected by which port is vacated). -/
 def World.setNonesOut (w : World) (u : Nat) : List PortRef → Except Err World
   | [] => .ok w
   | r :: rs => do
-    let i ← (w.get .i).resolve u r
+    let i ← (w.get .i).resolve w.real u r
     let w1 ← w.on .o fun sw => let (sw1, m) := sw.newMissing u; sw1.setStream u i m
     w1.setNonesOut u rs
 
@@ -394,7 +409,7 @@ def World.disconnectUnit (w : World) (u : Nat) (inl outl : Option (List PortRef)
       let w1 ← w.on .i (·.setStreams u 0 (w.ins.lst u).length [])
       pure (w1, rs.map some)
     | some l => do
-      let w1 ← w.on .i (·.setNones u l)
+      let w1 ← w.on .i (SW.setNones w.real · u l)
       pure (w1, l.map fun | .strm s => some s | .idx _ => none)
   let (w2, outS) ← match outl with
     | none => do
@@ -478,7 +493,9 @@ def World.insertUnit (w : World) (u s : Nat) (inlet outlet : Option PortRef) :
         else .error .valueError
       else do pure (← w.on .o (·.append u s), true)
     | some (.strm o) =>
-      if w.outs.loc o ≠ some u then .error .valueError
+      -- a placeholder object is not an `AbstractStream`: `self.outs[outlet]` → TypeError
+      if !w.real o then .error .typeError
+      else if w.outs.loc o ≠ some u then .error .valueError
       else do pure (← replaceIn w .i sink s o, false)
     | some (.idx i) =>
       match (w.outs.lst u)[i]? with
@@ -494,7 +511,8 @@ def World.insertUnit (w : World) (u s : Nat) (inlet outlet : Option PortRef) :
       else .error .valueError
     else w1.on .i (·.append u s)
   | some (.strm a) =>
-    if w1.ins.loc a ≠ some u then .error .valueError
+    if !w1.real a then .error .typeError
+    else if w1.ins.loc a ≠ some u then .error .valueError
     else replaceIn w1 .o source s a
   | some (.idx i) =>
     match (w1.outs.lst u)[i]? with
